@@ -300,7 +300,8 @@ pub fn build(v: &RVal) -> Value {
             value: f64::from_bits(*bits),
             unit: unit
                 .as_ref()
-                .map(|ids| unit_by_ids(ids).expect("RVal unit must be a database unit")),
+                // an empty id list stands for the library's default unit (what `get_unit_or_default` returns for an unknown name)
+                .map(|ids| if ids.is_empty() { libhaystack::units::get_unit_or_default("\u{1}no such unit") } else { unit_by_ids(ids).expect("RVal unit must be a database unit") }),
         }),
         RVal::Str(s) => Value::make_str(s),
         RVal::Uri(s) => Value::make_uri(s),
